@@ -53,7 +53,7 @@ package align
 //@   ensures !old(has(a.seqmap, name)) && (old(a.length) == -1 || old(a.length) == len(sequence)) ==> result == nil && nrows(a) == old(nrows(a)) + 1 && rowname(a, old(nrows(a))) == name && sameslice(row(a, old(nrows(a))).sequence, sequence) && fresh(row(a, old(nrows(a)))) && a.length == len(sequence)
 //@   ensures old(has(a.seqmap, name)) && a.ignoreidentical == IGNORE_NAME ==> result == nil && nrows(a) == old(nrows(a)) && a.length == old(a.length)
 //@   ensures a.alphabet == old(a.alphabet) && a.ignoreidentical == old(a.ignoreidentical) && a.seqmap == old(a.seqmap) && (base(a.seqs) == old(base(a.seqs)) || fresh(a.seqs))
-//@   modifies a.seqs, a.length, a.seqs[*], map(a.seqmap)
+//@   modifies a.seqs, a.length, a.seqs[+], map(a.seqmap)
 //@   loop 1
 //@     invariant idx >= 0 && ok == has(a.seqmap, tmpname) && (idx == 0 ==> tmpname == name) && (idx > 0 ==> has(a.seqmap, name))
 
@@ -197,6 +197,67 @@ package align
 //@   ensures forall k :: 0 <= k && k < len(s.sequence) ==> s.sequence[k] == old(s.sequence[len(s.sequence)-1-k])
 //@   ensures s.sequence == old(s.sequence)
 //@   modifies s.sequence[*]
+
+// row r of sb is the reverse complement of what it was
+//@ pure func revcomprow(sb *seqbag, r int) bool = rowlen(sb, r) == old(rowlen(sb, r)) && (forall c :: 0 <= c && c < rowlen(sb, r) ==> hascomp(old(cell(sb, r, rowlen(sb, r) - 1 - c))) && cell(sb, r, c) == comp(old(cell(sb, r, rowlen(sb, r) - 1 - c))))
+
+//@ func (*seqbag).ReverseComplement
+//@   props C06
+//@   requires sb != nil && rowsok(sb) && owns(sb)
+//@   ensures sb.alphabet != NUCLEOTIDS ==> err != nil
+//@   ensures err == nil ==> forall r, c :: 0 <= r && r < nrows(sb) && 0 <= c && c < rowlen(sb, r) ==> hascomp(old(cell(sb, r, rowlen(sb, r) - 1 - c))) && cell(sb, r, c) == comp(old(cell(sb, r, rowlen(sb, r) - 1 - c)))
+//@   ensures sb.alphabet == NUCLEOTIDS && (forall r, c :: 0 <= r && r < nrows(sb) && 0 <= c && c < rowlen(sb, r) ==> hascomp(old(cell(sb, r, c)))) ==> err == nil
+//@   ensures forall r :: 0 <= r && r < nrows(sb) ==> row(sb, r) == old(row(sb, r)) && sameslice(row(sb, r).sequence, old(row(sb, r).sequence)) && rowname(sb, r) == old(rowname(sb, r))
+//@   ensures sb.alphabet != NUCLEOTIDS ==> forall r, c :: 0 <= r && r < nrows(sb) && 0 <= c && c < rowlen(sb, r) ==> cell(sb, r, c) == old(cell(sb, r, c))
+//@   modifies mem(uint8)
+//@   loop 1
+//@     invariant err == nil && sb.alphabet == NUCLEOTIDS
+//@     invariant forall r, c :: 0 <= r && r < $i && 0 <= c && c < rowlen(sb, r) ==> hascomp(old(cell(sb, r, rowlen(sb, r) - 1 - c))) && cell(sb, r, c) == comp(old(cell(sb, r, rowlen(sb, r) - 1 - c)))
+//@     invariant forall r, c :: $i <= r && r < nrows(sb) && 0 <= c && c < rowlen(sb, r) ==> cell(sb, r, c) == old(cell(sb, r, c))
+//@     decreases nrows(sb) - $i
+
+//@ opaque func innames(names []string, n int, s string) bool = exists j :: 0 <= j && j < n && names[j] == s
+//@ pure func revcompd(sb *seqbag, r int) bool = forall c :: 0 <= c && c < rowlen(sb, r) ==> hascomp(old(cell(sb, r, rowlen(sb, r) - 1 - c))) && cell(sb, r, c) == comp(old(cell(sb, r, rowlen(sb, r) - 1 - c)))
+//@ pure func samerow(sb *seqbag, r int) bool = forall c :: 0 <= c && c < rowlen(sb, r) ==> cell(sb, r, c) == old(cell(sb, r, c))
+
+// each listed name is taken once (a name listed twice is reverse-complemented twice, i.e. restored: outside this contract)
+//@ func (*seqbag).ReverseComplementSequences
+//@   props C06
+//@   requires wf(sb) && owns(sb)
+//@   requires forall j1, j2 :: 0 <= j1 && j1 < j2 && j2 < len(names) ==> names[j1] != names[j2]
+//@   ensures sb.alphabet != NUCLEOTIDS ==> err != nil
+//@   ensures err == nil ==> forall r :: 0 <= r && r < nrows(sb) ==> (innames(names, len(names), rowname(sb, r)) ? revcompd(sb, r) : samerow(sb, r))
+//@   ensures forall r :: 0 <= r && r < nrows(sb) && !innames(names, len(names), rowname(sb, r)) ==> samerow(sb, r)
+//@   ensures forall r :: 0 <= r && r < nrows(sb) ==> row(sb, r) == old(row(sb, r)) && sameslice(row(sb, r).sequence, old(row(sb, r).sequence)) && rowname(sb, r) == old(rowname(sb, r))
+//@   modifies mem(uint8)
+//@   loop 1
+//@     invariant err == nil && sb.alphabet == NUCLEOTIDS
+//@     invariant forall r :: 0 <= r && r < nrows(sb) ==> (innames(names, $i, rowname(sb, r)) ? revcompd(sb, r) : samerow(sb, r))
+//@     decreases len(names) - $i
+
+// the complement table is an involution on the DNA alphabet of the property (IUPAC codes in both cases, gap, point, star; U/u excluded: U -> A -> T)
+//@ lemma comp_involution(c int)
+//@   props C06
+//@   requires hascomp(c) && c != 'U' && c != 'u'
+//@   ensures hascomp(comp(c)) && comp(comp(c)) == c
+//@   ensures isupper(c) == isupper(comp(c)) && islower(c) == islower(comp(c))
+//@   ensures (c == '-') == (comp(c) == '-') && (c == '.') == (comp(c) == '.') && (c == '*') == (comp(c) == '*')
+//@   ensures comp(c) != 'U' && comp(c) != 'u'
+
+// IUPAC meaning: the complement of a code denotes the set of complements (A<->T, C<->G) of the bases the code denotes
+//@ table iupacToInt C06
+//@ pure func ntcode(c int) int = iupacToInt[up8(c)]
+//@ pure func swapbits(x int) int = (x & 1) * 8 + godiv(x & 8, 8) + (x & 2) * 2 + godiv(x & 4, 2)
+//@ lemma comp_iupac(c int)
+//@   props C06
+//@   requires hascomp(c) && c != 'U' && c != 'u' && 0 <= c && c < 128
+//@   ensures has(iupacToInt, up8(c)) && ntcode(comp(c)) == swapbits(ntcode(c))
+
+// applying the reverse complement twice restores every residue: position n-1-(n-1-k) == k and comp(comp(x)) == x
+//@ lemma revcomp_twice(n int, k int, x int)
+//@   props C06
+//@   requires 0 <= k && k < n && hascomp(x) && x != 'U' && x != 'u'
+//@   ensures n - 1 - (n - 1 - k) == k && comp(comp(x)) == x && hascomp(comp(x))
 
 // up8/low8: what uint8(unicode.ToUpper(rune(c))) computes on a byte; on ASCII it is the usual letter-case map (lemmas below)
 //@ pure func up8(c int) int = emod(upper(c), 256)
